@@ -38,7 +38,7 @@ def lost_coverage(prop, obligations, baseline):
     return [name for name in base if name not in obligations and not name.endswith("/ensures:no-raise")]
 
 
-def write(prop, tier, seed, results, obligations, discharged, known_hits, violations, undecided, oor, wall):
+def write(prop, tier, seed, results, obligations, discharged, known_hits, violations, undecided, oor, wall, seed_matrix=None):
     from . import cli
 
     recs = [rec for r in results for rec in r["records"]]
@@ -98,6 +98,16 @@ def write(prop, tier, seed, results, obligations, discharged, known_hits, violat
             "explanation": EXPLANATIONS.get(prop, ""),
         },
     }
+    cross = {}
+    for rec in recs:
+        if "cross" in rec:
+            c = cross.setdefault(rec["cross"], {"vcs": 0, "seconds": 0.0})
+            c["vcs"] += 1
+            c["seconds"] = round(c["seconds"] + rec.get("cross_seconds", 0.0), 2)
+    if cross:
+        ev["coverage"]["cross_solver"] = {"solver": "cvc5 1.0.3 on the SMT-LIB text of every VC that z3 discharged", "answers": cross}
+    if seed_matrix is not None:
+        ev["coverage"]["seeded_changes"] = seed_matrix
     os.makedirs(os.path.join(VERIF, "evidence"), exist_ok=True)
     with open(os.path.join(VERIF, "evidence", f"{prop}.json"), "w") as f:
         json.dump(ev, f, indent=1)
